@@ -23,7 +23,7 @@ manifest = {
     "setup_cmd": "./setup.sh",
     "hooks": {
         "guard": "none: /repo carries no hooks. Each check instruments a scratch copy of /repo's working tree (tools/instr, additive text splicing) and builds it with a runtime overlay; see DESIGN.md 2.2/2.3",
-        "enable": "scripts/build.sh <scratch>: rsync /repo -> scratch, tools/instr inserts simrt.Yield/Acquire/Release calls, go1.26.8 test -overlay .build/overlay/overlay.json -c",
+        "enable": "scripts/build.sh <scratch>: rsync /repo -> scratch, tools/instr inserts simrt.Yield/Acquire/Release calls, go1.26.8 test -overlay .build/overlay/overlay.json -c; for C05/C14/C20 a third build also copies github.com/expr-lang/expr from the module cache into the scratch directory, instruments vm/vm.go and substitutes it with a replace directive",
         "baseline_off_cmd": "cd /repo && go test -mod=mod -json -vet=off -count=1 -timeout 25m ./...",
         "source_commits": [],
         "add_only": True,
@@ -36,7 +36,7 @@ manifest = {
     }],
     "checks": [],
     "not_applicable": [],
-    "notes": "All commands run with cwd=/verif. VERIF_SEED selects the seed family; VERIF_BUDGET_S / VERIF_RUNS / VERIF_JOBS bound a run. ./check selftest is the determinism self-test. known_findings.json lists recorded findings (printed as KNOWN-FINDING) and fixed defects.",
+    "notes": "All commands run with cwd=/verif. VERIF_SEED selects the seed family; VERIF_BUDGET_S / VERIF_RUNS / VERIF_JOBS bound a run. ./check selftest is the determinism self-test. known_findings.json lists recorded findings (printed as KNOWN-FINDING) and fixed defects (each with a witness under replays/<id>/fixed-<commit>-*.json; scripts/verify_witnesses.py replays them on the parent of the fix and on the current tree). seeded/<id>-<n>/ holds the independently seeded breaking changes (DESIGN.md 8.6); scripts/evalall.py / scripts/evalseed.py run the checks against them in scratch worktrees of /repo.",
 }
 for pid in sorted(props.PROPS):
     cfg = props.PROPS[pid]
